@@ -24,7 +24,7 @@ pub fn class(e: &pilota::prost::DecodeError) -> String { err_class(e).to_string(
 pub fn check_utf8(s: &Schema, m: &DynMsg, bad: &mut Vec<String>) {
     fn e(s: &Schema, ty: &FTy, v: &EVal, bad: &mut Vec<String>) {
         match (ty, v) {
-            (FTy::Scalar(Codec::Str | Codec::FastStr), EVal::S(SV::Bs(b))) => if std::str::from_utf8(b).is_err() { bad.push(hex(b)); },
+            (FTy::Scalar(c @ (Codec::Str | Codec::FastStr)), EVal::S(SV::Bs(b))) => if std::str::from_utf8(b).is_err() { bad.push(format!("{} field {}", c.name(), hex(b))); },
             (FTy::Msg(_), EVal::Msg(m)) => check_utf8(s, m, bad),
             _ => {}
         }
